@@ -224,10 +224,29 @@ def copyQuoted (q : Char) : List Char → List Char × List Char
     if c = q then ([c], cs)
     else ((c :: (copyQuoted q cs).1), (copyQuoted q cs).2)
 
-/-- `matches!(chars.peek(), Some('(') | Some('!'))` -/
+/-- the inner loop after `[`: copies a structured-reference specifier (or an external-workbook index)
+    up to and including the `]` that closes it, or to the end of the text. `depth` counts the open
+    brackets (≥ 1); inside, `'` escapes the next character (`'[`, `']`, `'#`, `''`): `esc` says that
+    the previous character was such a `'` (the Rust code fetches the escaped character with a second
+    `chars.next()`). Returns (copied, remaining input). -/
+def copyBracketAux : Bool → Nat → List Char → List Char × List Char
+  | _, _, [] => ([], [])
+  | true, depth, c :: cs => (c :: (copyBracketAux false depth cs).1, (copyBracketAux false depth cs).2)
+  | false, depth, c :: cs =>
+    if c = '\'' then (c :: (copyBracketAux true depth cs).1, (copyBracketAux true depth cs).2)
+    else if c = '[' then (c :: (copyBracketAux false (depth + 1) cs).1, (copyBracketAux false (depth + 1) cs).2)
+    else if c = ']' then
+      if depth ≤ 1 then ([c], cs)
+      else (c :: (copyBracketAux false (depth - 1) cs).1, (copyBracketAux false (depth - 1) cs).2)
+    else (c :: (copyBracketAux false depth cs).1, (copyBracketAux false depth cs).2)
+
+def copyBracket (depth : Nat) (cs : List Char) : List Char × List Char := copyBracketAux false depth cs
+
+/-- `matches!(chars.peek(), Some('(') | Some('!') | Some('['))` -/
 def nextIsCallOrSheet : List Char → Bool
   | '(' :: _ => true
   | '!' :: _ => true
+  | '[' :: _ => true
   | _ => false
 
 /-- the `while let Some((start, c)) = chars.next()` loop of `replace_cell_names`.
@@ -240,6 +259,11 @@ def replaceGo (offset : Int × Int) : Nat → List Char → Res (List Char)
       -- string literals and quoted sheet names are copied as they are
       match replaceGo offset f (copyQuoted c cs).2 with
       | .ok rest => .ok (c :: (copyQuoted c cs).1 ++ rest)
+      | r => r
+    else if c = '[' then
+      -- structured-reference specifiers (`Table1[Q1]`) and workbook indices (`[1]Sheet1!A1`) too
+      match replaceGo offset f (copyBracket 1 cs).2 with
+      | .ok rest => .ok (c :: (copyBracket 1 cs).1 ++ rest)
       | r => r
     else if isNameChar c then
       -- longest run of name characters
